@@ -111,7 +111,7 @@ func drainFunc(p *Prog) (*ssa.Function, *ssa.Call) {
 
 func ruleC08NoDrop(c *Checker) {
 	const R = "C08.nodrop"
-	c.rule(R, "In the queue-draining function no popped item is dropped silently: from each pop (a store shrinking a pending queue by its last element) every path to the next queue test passes (a) an appended diagnostic, (b) for registry items a push onto the remote queue whose finder comes from the popped item, or (c) for remote items the analysed-set lookup keyed by the popped item (whose miss edge leads to the finder call and the analysed store: C14.memo).", 2)
+	c.rule(R, "In the queue-draining function no popped item is dropped silently: from each pop (a store shrinking a pending queue by its last element) every path to the next queue test passes (a) an appended diagnostic, (b) for registry items a push onto the remote queue whose finder comes from the popped item, or (c) a lookup in a builder set keyed by the whole popped item, same type, nothing of the request left out (for remote items the analysed set, whose miss edge leads to the finder call and the analysed store: C14.memo).", 2)
 	p := c.P
 	fn, _ := drainFunc(p)
 	if fn == nil {
@@ -179,8 +179,12 @@ func ruleC08NoDrop(c *Checker) {
 					}
 				}
 			case *ssa.Lookup:
-				if builderMapOf(y.X) != "" && fromPopped(y.Index) {
-					return true
+				// the set must be keyed by the whole popped item: a key that leaves part of the
+				// request out (its version constraint, its finder) makes a different request look done
+				if builderMapOf(y.X) != "" && fromPopped(y.Index) && popped != nil {
+					if mt, ok := y.X.Type().Underlying().(*types.Map); ok && types.Identical(mt.Key(), derefType(popped.Type())) {
+						return true
+					}
 				}
 			}
 			return false
